@@ -414,6 +414,16 @@ theorem decrypt_encrypt_gen (chk : Bool) (sealF : Bytes → Bytes → Bytes) (op
   rw [if_neg this]
   rfl
 
+/-- the blob written by `Encrypt` exposes exactly the IV it was sealed with -/
+theorem ivOf_encrypt (sealF : Bytes → Bytes → Bytes) (iv p : Bytes) : ivOf (encrypt sealF iv p) = some iv := by
+  have hdrop : (encrypt sealF iv p).drop header.length = b64Encode iv ++ splitter :: b64Encode (sealF iv p) := by
+    rw [encrypt_shape]; simp
+  have hcut : cutAt splitter (b64Encode iv ++ splitter :: b64Encode (sealF iv p)) = some (b64Encode iv, b64Encode (sealF iv p)) :=
+    cutAt_append_sep _ _ _ (by rw [splitter_eq]; exact not_mem_b64 iv 33 (by simp))
+  unfold ivOf
+  rw [hdrop, hcut]
+  exact b64_roundtrip iv
+
 /-- `Decrypt(Encrypt(p)) = p` for a 12-byte IV, given that the AEAD opens what it sealed -/
 theorem decrypt_encrypt (chk : Bool) (sealF : Bytes → Bytes → Bytes) (opn : Bytes → Bytes → Option Bytes)
     (iv p : Bytes) (hiv : iv.length = 12) (hA : opn iv (sealF iv p) = some p) :
